@@ -84,6 +84,16 @@ def check_rows(ck):
     for fn in fns:
         if "/slice.rs" in fn["span"] and any((mir.callee_path(t) or "") in RAW_PARTS for _, t in mir.Body(fn).calls()):
             back_fns.add(fn["path"])
+    # ... and functions of slice.rs that only forward their argument to one of those (helpers shared by several conversions)
+    for _ in range(3):
+        for fn in fns:
+            if "/slice.rs" not in fn["span"] or fn["path"] in back_fns:
+                continue
+            o = base_of(mir.Body(fn).origin_local(0))
+            if o[0] == "call" and len(o[2]) == 1 and base_of(o[2][0]) == ("arg", 1):
+                resolved = o[4][4] if len(o) > 4 and o[4] and len(o[4]) > 4 and o[4][4] else (o[4][3] if len(o) > 4 and o[4] and len(o[4]) > 3 and o[4][3] else o[1])
+                if {o[1], resolved, resolved + "::from", resolved + "::into"} & back_fns:
+                    back_fns.add(fn["path"])
     for fn in fns:
         body = mir.Body(fn)
         live = body.live_blocks()
@@ -140,7 +150,7 @@ def check_rows(ck):
                     a = mir.strip(a)
                     ok2 = a[0] == "call" and a[1] in RAW_PARTS
                     if not ok2 and a[0] == "call" and a[2]:
-                        resolved = a[4][4] if len(a) > 4 and a[4] and len(a[4]) > 4 and a[4][4] else a[1]
+                        resolved = a[4][4] if len(a) > 4 and a[4] and len(a[4]) > 4 and a[4][4] else (a[4][3] if len(a) > 4 and a[4] and len(a[4]) > 3 and a[4][3] else a[1])
                         cand = {a[1], resolved, resolved + "::from", resolved + "::into"}
                         ok2 = bool(cand & back_fns) and base_of(a[2][0]) == ("arg", 1)
                     ck.ob("U-checked-input", key, ok2, "%s validates something other than the view's (data,len): %s" % (fn["path"], mir.fmt(a)))
